@@ -11,11 +11,23 @@
 //   def s:<hex>  | def_none      p.definition(..)
 //   reopen ro|rw                 close the file, open it again, look section and property up again
 //   obs                          -> dt=<type> n=<valueCount> v=[ <value>* ] u=<-|s:hex> e=<-|d:hex> d=<-|s:hex>
+//   set / new_v / new_vs may carry a route suffix, e.g. set:retype -- how every Variant of the request is put together:
+//        direct | cstr | charptr | literal | setlive | setc | retype | copy | assign | move | swap | value   (see via_route)
+//   obs:alt                      the same observation through get(T&) / get<const char*>
+//   veq <v1> <v2>                -> [ a==b a!=b ]            (also through nix::Value; first operand through the route)
+//   vget|vgeto <v> <T>           -> [ value ]                get<T>() | get(T&); T also CStr (get<const char*>), None, NoneT
+//   vstr <v>                     -> s:<hex of operator<<>    (decimal rendering of a double replaced by ?)
+//   vsup <Type>                  -> [ supports_type ]
+//   vswap <v1> <v2>              -> [ a b a' b' ]            after a.swap(b), after nix::swap(a, b)
+//   cmp <name s:hex>             -> sign(p.compare(q)) sign(q.compare(p)) sign(p.compare(p)), or "ids" for equal names
+//   pstr                         -> operator<<(Property)
 //   count                        -> valueCount()          (both: "absent" when the section has no property)
 // value tokens: b:0|1  i32:<dec>  u32:<dec>  i64:<dec>  u64:<dec>  d:<16 hex>  s:<hex>  none (an empty Variant)
 // Mutating lines answer "done".
 #include "common.hpp"
 #include <hdf5.h>
+#include <nix/Value.hpp>
+#include <sstream>
 
 using namespace nixv;
 
@@ -103,6 +115,167 @@ static std::vector<nix::Variant> dec_vals(const std::vector<std::string> &t, siz
     return vs;
 }
 
+// ---- construction routes of a Variant: the same value, put together through different public entry points --------
+#define LITERALS(X) X("") X("a") X("abc") X("hello world") X("m V") X("\xc3\xa4\xc3\xb6\xe2\x82\xac")
+static bool from_literal(const std::string &s, nix::Variant &out) {
+#define X(L) if (s == std::string(L)) { out = nix::Variant(L); return true; }     /* Variant(const char (&)[N]) */
+    LITERALS(X)
+#undef X
+    return false;
+}
+
+// v.set(x) with the overload of x's own type
+static void set_as(nix::Variant &v, const nix::Variant &x, bool cstr) {
+    switch (x.type()) {
+    case nix::DataType::Bool: v.set(x.get<bool>()); break;
+    case nix::DataType::Int32: v.set(x.get<int32_t>()); break;
+    case nix::DataType::UInt32: v.set(x.get<uint32_t>()); break;
+    case nix::DataType::Int64: v.set(x.get<int64_t>()); break;
+    case nix::DataType::UInt64: v.set(x.get<uint64_t>()); break;
+    case nix::DataType::Double: v.set(x.get<double>()); break;
+    case nix::DataType::String: {
+        std::string s = x.get<std::string>();
+        if (cstr) { if (s.size() % 2) v.set(s.c_str()); else v.set(s.c_str(), s.size()); }
+        else v.set(s);
+        break;
+    }
+    default: v.set(nix::none); break;
+    }
+}
+
+static nix::Value to_value(const nix::Variant &x, bool cstr) {
+    switch (x.type()) {
+    case nix::DataType::Bool: return nix::Value(x.get<bool>());
+    case nix::DataType::Int32: return nix::Value(x.get<int32_t>());
+    case nix::DataType::UInt32: return nix::Value(x.get<uint32_t>());
+    case nix::DataType::Int64: return nix::Value(x.get<int64_t>());
+    case nix::DataType::UInt64: return nix::Value(x.get<uint64_t>());
+    case nix::DataType::Double: return nix::Value(x.get<double>());
+    case nix::DataType::String: { std::string s = x.get<std::string>(); return cstr ? nix::Value(s.c_str()) : nix::Value(s); }
+    default: return nix::Value();
+    }
+}
+
+static nix::Variant from_value(const nix::Value &x) {
+    switch (x.type()) {
+    case nix::DataType::Bool: return nix::Variant(x.get<bool>());
+    case nix::DataType::Int32: return nix::Variant(x.get<int32_t>());
+    case nix::DataType::UInt32: return nix::Variant(x.get<uint32_t>());
+    case nix::DataType::Int64: return nix::Variant(x.get<int64_t>());
+    case nix::DataType::UInt64: return nix::Variant(x.get<uint64_t>());
+    case nix::DataType::Double: return nix::Variant(x.get<double>());
+    case nix::DataType::String: return nix::Variant(x.get<const char *>());
+    default: return nix::Variant();
+    }
+}
+
+static nix::Variant via_route(const nix::Variant &x, const std::string &route) {
+    const bool is_str = x.type() == nix::DataType::String;
+    if (route == "direct") return x;
+    if (route == "cstr") {                                     // Variant(const char*)
+        if (!is_str) return x;
+        std::string s = x.get<std::string>();
+        return nix::Variant(s.c_str());
+    }
+    if (route == "charptr") {                                  // Variant(char*)
+        if (!is_str) return x;
+        std::string s = x.get<std::string>();
+        std::vector<char> buf(s.begin(), s.end()); buf.push_back('\0');
+        return nix::Variant(buf.data());
+    }
+    if (route == "literal") {                                  // Variant(const char (&)[N]) for the strings of the table
+        nix::Variant out;
+        if (is_str && from_literal(x.get<std::string>(), out)) return out;
+        return via_route(x, "cstr");
+    }
+    if (route == "setlive" || route == "setc") {               // a default Variant, then set()
+        nix::Variant v;
+        set_as(v, x, route == "setc");
+        return v;
+    }
+    if (route == "retype") {                                   // a live Variant re-typed: String -> String (realloc), String -> other,
+        nix::Variant v(std::string("seed"));                   // other -> String, other -> other, then the value
+        v.set(std::string("a considerably longer string than the seed, to make realloc move"));
+        v.set(int32_t(7));
+        v.set("again");
+        v.set(true);
+        v.set(std::string("x"));
+        v.set(nix::none);
+        v.set(2.5);
+        set_as(v, x, false);
+        if (is_str) { nix::Variant w(std::string("other")); set_as(w, x, true); return w; }
+        return v;
+    }
+    if (route == "copy") { nix::Variant a(x); nix::Variant b(a); return b; }
+    if (route == "assign") { nix::Variant a(std::string("old")); a = x; nix::Variant b; b = a; return b; }
+    if (route == "move") { nix::Variant a(x); nix::Variant b(std::move(a)); nix::Variant c(int64_t(1)); c = std::move(b); return c; }
+    if (route == "swap") {
+        nix::Variant a(x), b(std::string("filler")), c(uint32_t(9));
+        a.swap(b);            // b holds the value
+        nix::swap(b, c);      // c holds the value
+        c.swap(a);            // a holds it again
+        return a;
+    }
+    if (route == "value") {                                    // through the legacy nix::Value wrapper
+        nix::Value a = to_value(x, is_str && x.get<std::string>().size() % 2 == 1);
+        a.uncertainty = 0.5; a.reference = "r";
+        nix::Value b(a);
+        nix::Value c(std::move(b));
+        nix::Value d; d = c;
+        nix::Value e(int32_t(3));
+        e.swap(d);
+        nix::swap(d, e);
+        nix::swap(d, e);      // e holds the value
+        nix::Value f; f.set(nix::none);
+        return from_value(e);
+    }
+    throw std::logic_error("bad route " + route);
+}
+
+static std::string route_of(const std::string &cmd) {
+    size_t k = cmd.find(':');
+    return k == std::string::npos ? "direct" : cmd.substr(k + 1);
+}
+
+static std::vector<nix::Variant> dec_vals_r(const std::vector<std::string> &t, size_t at, const std::string &route) {
+    std::vector<nix::Variant> vs = dec_vals(t, at);
+    std::vector<nix::Variant> out;
+    for (const nix::Variant &v : vs) out.push_back(via_route(v, route));
+    return out;
+}
+
+// the getters with an out-parameter, and get<const char*> for strings
+static std::string enc_val_alt(const nix::Variant &v) {
+    switch (v.type()) {
+    case nix::DataType::Bool: { bool x; v.get(x); return std::string("b:") + (x ? "1" : "0"); }
+    case nix::DataType::Int32: { int32_t x; v.get(x); return "i32:" + std::to_string(x); }
+    case nix::DataType::UInt32: { uint32_t x; v.get(x); return "u32:" + std::to_string(x); }
+    case nix::DataType::Int64: { int64_t x; v.get(x); return "i64:" + std::to_string(x); }
+    case nix::DataType::UInt64: { uint64_t x; v.get(x); return "u64:" + std::to_string(x); }
+    case nix::DataType::Double: { double x; v.get(x); return enc_dbl(x); }
+    case nix::DataType::String: { const char *p = v.get<const char *>(); return enc_str(std::string(p)); }
+    case nix::DataType::Nothing: { nix::none_t n = nix::none; v.get(n); return "none"; }
+    default: return "?";
+    }
+}
+
+// get<T>() (tmpl) or get(T&) with the type named by the case line
+static std::string get_as(const nix::Variant &v, const std::string &T, bool tmpl) {
+    if (T == "Bool") { bool x; if (tmpl) x = v.get<bool>(); else v.get(x); return enc_val(nix::Variant(x)); }
+    if (T == "Int32") { int32_t x; if (tmpl) x = v.get<int32_t>(); else v.get(x); return enc_val(nix::Variant(x)); }
+    if (T == "UInt32") { uint32_t x; if (tmpl) x = v.get<uint32_t>(); else v.get(x); return enc_val(nix::Variant(x)); }
+    if (T == "Int64") { int64_t x; if (tmpl) x = v.get<int64_t>(); else v.get(x); return enc_val(nix::Variant(x)); }
+    if (T == "UInt64") { uint64_t x; if (tmpl) x = v.get<uint64_t>(); else v.get(x); return enc_val(nix::Variant(x)); }
+    if (T == "Double") { double x; if (tmpl) x = v.get<double>(); else v.get(x); return enc_val(nix::Variant(x)); }
+    if (T == "String") { std::string x; if (tmpl) x = v.get<std::string>(); else v.get(x); return enc_str(x); }
+    if (T == "CStr") { const char *p = v.get<const char *>(); return enc_str(std::string(p)); }
+    if (T == "None") { nix::none_t n = nix::none; v.get(n); return "none"; }
+    if (T == "NoneT") { v.get<nix::none_t>(); return "none"; }
+    throw std::logic_error("bad type " + T);
+}
+
+static int sgn(int x) { return x < 0 ? -1 : x > 0 ? 1 : 0; }
+
 static void fresh() {
     prop = nix::none;
     sec = nix::none;
@@ -115,13 +288,50 @@ static void fresh() {
 
 static std::string handle(const std::vector<std::string> &t) {
     std::ostringstream o;
-    const std::string &c = t[0];
+    const std::string full = t[0];
+    const std::string route = route_of(full);
+    const std::string c = full.substr(0, full.find(':'));
+    // ---- the Variant value class on its own (no file involved) ----
+    if (c == "veq") {
+        nix::Variant a = via_route(dec_val(t.at(1)), route), b = dec_val(t.at(2));
+        nix::Value va = to_value(a, false), vb = to_value(b, true);
+        if ((a == b) != (va == vb) || (a != b) != (va != vb)) return "Value-and-Variant-disagree";
+        o << "[ " << (a == b) << " " << (a != b) << " ]";
+        return o.str();
+    }
+    if (c == "vget" || c == "vgeto") {
+        nix::Variant v = via_route(dec_val(t.at(1)), route);
+        return "[ " + get_as(v, t.at(2), c == "vget") + " ]";
+    }
+    if (c == "vstr") {
+        nix::Variant v = via_route(dec_val(t.at(1)), route);
+        std::ostringstream a, b;
+        a << v; b << to_value(v, true);
+        std::string sa = a.str(), sb = b.str();
+        if (sb != "Value" + sa.substr(7)) return "Value-and-Variant-disagree " + enc_str(sb);
+        if (v.type() == nix::DataType::Double) sa = sa.substr(0, sa.find("] ") + 2) + "?}";   // decimal rendering of doubles: not compared
+        return enc_str(sa);
+    }
+    if (c == "vsup") {
+        nix::DataType d = dec_type(t.at(1));
+        if (nix::Variant::supports_type(d) != nix::Value::supports_type(d)) return "Value-and-Variant-disagree";
+        o << "[ " << nix::Variant::supports_type(d) << " ]";
+        return o.str();
+    }
+    if (c == "vswap") {
+        nix::Variant a = via_route(dec_val(t.at(1)), route), b = dec_val(t.at(2));
+        a.swap(b);
+        o << "[ " << enc_val_alt(a) << " " << enc_val_alt(b);
+        nix::swap(a, b);
+        o << " " << enc_val(a) << " " << enc_val(b) << " ]";
+        return o.str();
+    }
     if (c == "new_t" || c == "new_v" || c == "new_vs") {
         fresh();
         try {
             if (c == "new_t") prop = sec.createProperty("p", dec_type(t.at(1)));
-            else if (c == "new_v") prop = sec.createProperty("p", dec_val(t.at(1)));
-            else prop = sec.createProperty("p", dec_vals(t, 1));
+            else if (c == "new_v") prop = sec.createProperty("p", via_route(dec_val(t.at(1)), route));
+            else prop = sec.createProperty("p", dec_vals_r(t, 1, route));
         } catch (...) {
             // a rejected create must leave nothing behind; if the section lists a property all the same,
             // later lines of the case observe it
@@ -140,10 +350,33 @@ static std::string handle(const std::vector<std::string> &t) {
         return prop ? "done" : "noprop";
     }
     if (!prop) {
-        if (c == "obs" || c == "count") return "absent";
+        if (c == "obs" || c == "count") return "absent";      // (also obs:alt)
         throw nix::UninitializedEntity();
     }
-    if (c == "set") { prop.values(dec_vals(t, 1)); return "done"; }
+    if (c == "set") { prop.values(dec_vals_r(t, 1, route)); return "done"; }
+    if (c == "cmp") {
+        // Property::compare with a property of the given name: in the same section, or -- for the property's own
+        // name -- in a second section (then only the ids differ)
+        std::string other = dec_str(t.at(1));
+        int ab, ba, aa;
+        if (other != "p") {
+            nix::Property q = sec.createProperty(other, nix::Variant(int32_t(1)));
+            ab = prop.compare(q); ba = q.compare(prop); aa = prop.compare(prop);
+            q = nix::none;
+            sec.deleteProperty(other);
+            o << sgn(ab) << " " << sgn(ba) << " " << sgn(aa);
+            return o.str();
+        }
+        nix::Section s2 = file.createSection("s2", "t");
+        nix::Property q = s2.createProperty("p", nix::Variant(int32_t(1)));
+        ab = prop.compare(q); ba = q.compare(prop); aa = prop.compare(prop);
+        q = nix::none; s2 = nix::none;
+        file.deleteSection("s2");
+        if (ab != 0 && sgn(ab) == -sgn(ba) && aa == 0) return "ids";
+        o << "ids-not-antisymmetric " << ab << " " << ba << " " << aa;
+        return o.str();
+    }
+    if (c == "pstr") { std::ostringstream s; s << prop; return enc_str(s.str()); }
     if (c == "clear") { prop.deleteValues(); return "done"; }
     if (c == "clear_none") { prop.values(nix::none); return "done"; }
     if (c == "unit") { prop.unit(dec_str(t.at(1))); return "done"; }
@@ -156,7 +389,7 @@ static std::string handle(const std::vector<std::string> &t) {
     if (c == "obs") {
         o << "dt=" << enc_type(prop.dataType()) << " n=" << prop.valueCount() << " v=[";
         std::vector<nix::Variant> vs = prop.values();
-        for (const nix::Variant &v : vs) o << " " << enc_val(v);
+        for (const nix::Variant &v : vs) o << " " << (route == "alt" ? enc_val_alt(v) : enc_val(v));
         o << " ]";
         boost::optional<std::string> u = prop.unit();
         o << " u=" << (u ? enc_str(*u) : std::string("-"));
